@@ -40,15 +40,22 @@ Fixpoint map_get {V} (k : key) (m : list (key * V)) : option V :=
   | [] => None
   | (k', v) :: r => if key_eqb k k' then Some v else map_get k r
   end.
-Fixpoint map_set {V} (k : key) (v : V) (m : list (key * V)) : list (key * V) :=
+(* v[k] = x: an existing entry is overwritten in place, a new key is inserted in key order *)
+Fixpoint map_repl {V} (k : key) (v : V) (m : list (key * V)) : list (key * V) :=
+  match m with
+  | [] => []
+  | (k', v') :: r => if key_eqb k k' then (k', v) :: r else (k', v') :: map_repl k v r
+  end.
+Fixpoint map_ins {V} (k : key) (v : V) (m : list (key * V)) : list (key * V) :=
   match m with
   | [] => [(k, v)]
   | (k', v') :: r => match key_cmp k k' with
-                     | Lt => (k, v) :: m
-                     | Eq => (k, v) :: r
-                     | Gt => (k', v') :: map_set k v r
+                     | Gt => (k', v') :: map_ins k v r
+                     | _ => (k, v) :: m
                      end
   end.
+Definition map_set {V} (k : key) (v : V) (m : list (key * V)) : list (key * V) :=
+  match map_get k m with Some _ => map_repl k v m | None => map_ins k v m end.
 Fixpoint map_del {V} (k : key) (m : list (key * V)) : list (key * V) :=
   match m with
   | [] => []
